@@ -17,4 +17,3 @@ MANIFEST = {
     "note": "Trusted: Lean kernel; monitor vocabulary; harness. Partitions without any successful commit are not judged. Theorems quantify over all histories; the correspondence samples schedules.",
     "technique": "Lean 4 proof over a history monitor with history correspondence against kgo x kfake in synctest bubbles",
 }
-PENDING = True
